@@ -23,7 +23,7 @@ REAL = ["msdm.algorithms.tdlearning (all four learners, unmodified)", "msdm.core
         "msdm.core.utils.dictutils.defaultdict2", "msdm QuickTabularMDP wrapper"]
 STUB = ["table MDP behind msdm's model interface (harness spec)", "random.Random streams (SimRandom, scheduler-decided)",
         "reference fold of the published update rules"]
-ASSUMPTIONS = ["workloads are proper MDPs with <= 6 non-absorbing states", "softmax temperature > 0 only with |r|<=2 and discount<=0.9 (no exp overflow)",
+ASSUMPTIONS = ["workloads are proper MDPs with <= 6 non-absorbing states (4%: 10-20)", "softmax temperatures 0, 1e-3, 0.01, 1, 5, 100 (with |r|<=2 and discount<=0.9 when > 0)",
                "policy clause checked with the Q-table's own entries (constant or callable initial Q)"]
 
 LEARNERS = ('QLearning', 'SARSA', 'ExpectedSARSA', 'DoubleQLearning')
@@ -39,7 +39,7 @@ def preload():
 
 
 def gen_case(rng, tier, idx):
-    temp = rng.choice((0.0, 0.0, 0.0, 1.0, 5.0))
+    temp = rng.choice((0.0, 0.0, 0.0, 1.0, 5.0, 0.01, 1e-3, 100.0))
     if temp > 0:
         spec = gen_mdp_spec(rng, **_size(rng), proper=True, discounts=(0.5, 0.8, 0.9), rewards=(-2.0, -1.0, -1.0, 0.0, 1.0, 0.5, 2.0))
     else:
